@@ -25,14 +25,14 @@ var profiles = map[string][]weighted{
 	"membership": {{"apply", 20}, {"tick", 6}, {"addvoter", 9}, {"addnonvoter", 6}, {"demote", 7}, {"remove", 8}, {"transfer", 6}, {"isolate", 6},
 		{"heal", 8}, {"crash", 5}, {"restart", 6}, {"partition", 4}, {"crashop", 4}, {"reload", 2}, {"cutleader", 2}, {"cfgrestart", 3}, {"join", 10}, {"snapcfg", 4}, {"snapshot", 3}},
 	"clients": {{"apply", 45}, {"tick", 5}, {"barrier", 8}, {"transfer", 6}, {"isolate", 5}, {"heal", 6}, {"remove", 2}, {"demote", 1}, {"crash", 4},
-		{"restart", 5}, {"cutleader", 3}, {"lossy", 2}, {"snapshot", 2}, {"inheritedtail", 4}, {"inflightfault", 3}, {"slowtransfer", 4}},
+		{"restart", 5}, {"cutleader", 3}, {"lossy", 2}, {"snapshot", 2}, {"inheritedtail", 4}, {"inflightfault", 3}, {"slowtransfer", 4}, {"busydisk", 4}},
 	"verify": {{"verify", 25}, {"cutleader", 10}, {"partition", 8}, {"isolate", 5}, {"heal", 10}, {"apply", 15}, {"lossy", 6}, {"addnonvoter", 2},
 		{"demote", 2}, {"tick", 8}, {"transfer", 2}, {"crash", 2}, {"restart", 3}, {"demotecut", 4}, {"lagcompact", 8}},
 	"converge": {{"apply", 30}, {"tick", 5}, {"stalesuffix", 10}, {"lagcompact", 10}, {"crash", 8}, {"restart", 8}, {"isolate", 8}, {"partition", 8},
 		{"heal", 6}, {"snapshot", 5}, {"addvoter", 3}, {"restartall", 2}, {"lossy", 4}, {"crashop", 4}, {"join", 4}, {"flakyreads", 5}},
 	"futures": {{"apply", 14}, {"barrier", 7}, {"verify", 7}, {"addvoter", 3}, {"addnonvoter", 2}, {"demote", 2}, {"remove", 3}, {"snapshot", 5},
 		{"restore", 3}, {"transfer", 6}, {"getconfig", 3}, {"shutdown", 8}, {"aftershutdown", 4}, {"isolate", 5}, {"cutleader", 5}, {"heal", 6},
-		{"crash", 2}, {"restart", 5}, {"tick", 8}, {"crashop", 4}, {"inflightfault", 5}, {"slowtransfer", 4}, {"restoreinflight", 5}},
+		{"crash", 2}, {"restart", 5}, {"tick", 8}, {"crashop", 4}, {"inflightfault", 5}, {"slowtransfer", 4}, {"restoreinflight", 5}, {"busydisk", 6}},
 	"notify": {{"transfer", 12}, {"cutleader", 8}, {"isolate", 8}, {"heal", 12}, {"remove", 2}, {"demote", 2}, {"apply", 15}, {"slowconsumer", 6},
 		{"tick", 10}, {"crash", 3}, {"restart", 5}, {"reload", 3}, {"staleis", 6}, {"lagcompact", 3}},
 	"restore": {{"restore", 12}, {"apply", 35}, {"tick", 6}, {"addvoter", 2}, {"demote", 2}, {"remove", 2}, {"isolate", 5}, {"lagcompact", 4}, {"heal", 8},
@@ -220,6 +220,9 @@ func genAction(t *rapid.T, p *Program, ws []weighted) Action {
 	case "inheritedtail":
 		a.N = oneOf(t, "tail", 1, 2, 3, 5)
 		a.Arg = oneOf(t, "fresh", 1, 2, 3)
+	case "busydisk":
+		a.N = rapid.IntRange(0, 3).Draw(t, "extraInFlight")
+		a.Set = []int{rapid.IntRange(0, 5).Draw(t, "firstCall"), rapid.IntRange(0, 12).Draw(t, "gapMs"), rapid.IntRange(0, 2).Draw(t, "leaves")}
 	case "restoreinflight":
 		a.N = rapid.IntRange(0, 4).Draw(t, "extraInFlight")
 		a.Arg = rapid.IntRange(0, 2).Draw(t, "where")
@@ -326,8 +329,11 @@ func genLease(t *rapid.T, p *Program) {
 			p.Actions = append(p.Actions, Action{Op: "tick", Dt: oneOf(t, "afterTransfer", 100, 300)})
 		}
 		cut := "cutleader"
-		if rapid.IntRange(0, 3).Draw(t, "selfDemotion") == 0 {
+		switch rapid.IntRange(0, 4).Draw(t, "selfDemotion") {
+		case 0:
 			cut = "demotecut"
+		case 1:
+			cut = "suffragecut" // a follower is demoted under this leader first, and stays on its side of the cut
 		}
 		p.Actions = append(p.Actions, Action{Op: cut, Dt: rapid.IntRange(0, 120).Draw(t, "cutAt"),
 			N: rapid.IntRange(0, 2).Draw(t, "keepVoters"), Arg: rapid.IntRange(0, 1).Draw(t, "keepNonvoters")})
@@ -368,7 +374,14 @@ func genLeaseJoin(t *rapid.T, p *Program) {
 		if rapid.Bool().Draw(t, "traffic") {
 			p.Actions = append(p.Actions, Action{Op: "apply", Srv: -1, N: oneOf(t, "burst", 1, 3), Dt: 5})
 		}
-		p.Actions = append(p.Actions, Action{Op: "join", N: 0, Dt: rapid.IntRange(0, 2*lease).Draw(t, "phase")})
+		if rapid.IntRange(0, 2).Draw(t, "viaNonvoter") == 0 {
+			// added as a non-voter first, promoted later under the same leader
+			p.Actions = append(p.Actions, Action{Op: "join", N: 1, Dt: rapid.IntRange(0, 2*lease).Draw(t, "phase")})
+			p.Actions = append(p.Actions, Action{Op: "tick", Dt: oneOf(t, "settleN", 100, 300)})
+			p.Actions = append(p.Actions, Action{Op: "addvoter", Srv: -1, N: voters + j, Dt: rapid.IntRange(0, 2*lease).Draw(t, "phaseP")})
+		} else {
+			p.Actions = append(p.Actions, Action{Op: "join", N: 0, Dt: rapid.IntRange(0, 2*lease).Draw(t, "phase")})
+		}
 		p.Actions = append(p.Actions, Action{Op: "tick", Dt: oneOf(t, "settle", 200, 400)})
 	}
 	p.Actions = append(p.Actions, Action{Op: "tick", Dt: 500})
